@@ -75,7 +75,10 @@ class FunctionData:
                     len(self.code[1:]),
                 )
 
-                end_name = name + "end"
+                # use the label that was actually emitted (qualified by the module
+                # name for library functions), not the bare function name
+                label = self.code[0].op
+                end_name = (label[:-1] if label.endswith(":") else name) + "end"
 
                 # Every exit point — 'j {name}end' (early return) or '{name}end:' (normal
                 # path) — needs 'pop ra' before its preceding return-value push, or before
